@@ -407,7 +407,7 @@ class LargeLaws(Component):
     rule = "refinement runs non-empty and different, or both partition parts non-empty"
 
     def examples(self, tier):
-        return 8 if tier == "quick" else 50
+        return 8 if tier == "quick" else 150
 
     def strategy(self, tier):
         return large_law_case(tier)
